@@ -917,20 +917,6 @@ theorem tryBorrow_local (r r' : Reg) (k : Key) (hf : find r' k = find r k)
 
 /-! ### frame: a program leaves alone every type it does not mention -/
 
-/-- The types an operation names. -/
-def ROp.keys : ROp → List Key
-  | .ins k _ | .rem k | .take k | .hasTop k | .has k | .find k | .findMut k | .get k | .tryGet k | .set k _
-  | .getMut k _ | .entOrIns k _ | .entOrWith k _ | .entOrDef k | .entMod k _ | .entModV k _ | .entModOrIns k _ _
-  | .occGet k | .occGetMut k _ | .occIntoMut k _ | .occIns k _ | .occRem k | .vacIns k _ | .parGet _ k
-  | .parIns _ k _ | .req k => [k]
-  | .multi ks _ => ks
-  | .push | .pop | .dump => []
-
-/-- Not a raw scope push/pop (inside closure bodies scopes come from `with_inner_state`). -/
-def ROp.flat : ROp → Bool
-  | .push | .pop => false
-  | _ => true
-
 mutual
   /-- The program never names the type `q`: no operation on it, no raw push/pop, no nested `holding` of it
   or of the type whose marker it is. -/
@@ -942,142 +928,6 @@ mutual
     | .nil => True
     | .cons s rest => Stmt.avoids q s ∧ Prog.avoids q rest
 end
-
-/-- The bindings of type `q`, scope by scope. -/
-def col (sp : Spec) (q : Key) : List (Option Nat) := sp.map (fun m => m q)
-
-theorem col_updFirst (sp : Spec) (k q : Key) (v : Option Nat) (h : k ≠ q) : col (sp.updFirst k v) q = col sp q := by
-  induction sp with
-  | nil => rfl
-  | cons m p ih =>
-    simp only [Spec.updFirst]
-    split
-    · simp [col, PMap.set, Ne.symm h]
-    · simp only [col, List.map_cons] at ih ⊢; rw [ih]
-
-theorem col_setTop (sp : Spec) (k q : Key) (v : Option Nat) (h : k ≠ q) (hne : sp ≠ []) :
-    col (sp.setTop k v) q = col sp q := by
-  cases sp with
-  | nil => exact absurd rfl hne
-  | cons m p => simp [Spec.setTop, col, PMap.set, Ne.symm h]
-
-theorem col_modifyAt_set (sp : Spec) (i : Nat) (k q : Key) (v : Option Nat) (h : k ≠ q) :
-    col (modifyAt sp i (fun m : PMap => m.set k v)) q = col sp q := by
-  induction sp generalizing i with
-  | nil => rfl
-  | cons m p ih =>
-    cases i with
-    | zero => simp [modifyAt, col, PMap.set, Ne.symm h]
-    | succ i => simp only [modifyAt, col, List.map_cons] at ih ⊢; rw [ih]
-
-theorem col_addAll (ks : List Key) (sp : Spec) (q : Key) (d : Nat) (h : q ∉ ks) : col (sp.addAll ks d) q = col sp q := by
-  induction ks generalizing sp with
-  | nil => rfl
-  | cons k ks ih =>
-    simp only [List.mem_cons, not_or] at h
-    simp only [Spec.addAll, List.foldl_cons]
-    have := ih (sp.updFirst k ((sp.lookup k).map (· + d))) h.2
-    simp only [Spec.addAll] at this
-    rw [this, col_updFirst _ _ _ _ (Ne.symm h.1)]
-
-theorem col_orInsert (sp : Spec) (k q : Key) (v : Nat) (h : k ≠ q) (hne : sp ≠ []) :
-    col (sp.orInsert k v).1 q = col sp q := by
-  simp only [Spec.orInsert]; split
-  · rfl
-  · exact col_setTop sp k q _ h hne
-
-theorem col_length (sp : Spec) (q : Key) : (col sp q).length = sp.length := by simp [col]
-
-theorem specStep_frame (sp : Spec) (o : ROp) (q : Key) (hq : q ∉ ROp.keys o) (hflat : ROp.flat o = true)
-    (hne : sp ≠ []) : col (specStep sp o).1 q = col sp q := by
-  have hmod : ∀ k d, k ≠ q → col (sp.modify k d) q = col sp q := fun k d hk => col_updFirst sp k q _ hk
-  have hmodne : ∀ k d, sp.modify k d ≠ [] := by
-    intro k d h
-    have := congrArg List.length (congrArg (col · q) h)
-    simp only [col_length] at this
-    have h2 : (sp.modify k d).length = sp.length := by
-      by_cases hk : k = q
-      · have := congrArg List.length h; simp at this
-        cases sp with
-        | nil => exact absurd rfl hne
-        | cons m p =>
-          simp only [Spec.modify, Spec.updFirst] at h; split at h <;> cases h
-      · have := col_updFirst sp k q ((sp.lookup k).map (· + d)) hk
-        have := congrArg List.length this
-        simpa [col_length, Spec.modify] using this
-    rw [h2] at this
-    cases sp with
-    | nil => exact absurd rfl hne
-    | cons m p => simp at this
-  cases o <;> simp only [ROp.keys, List.mem_singleton, List.not_mem_nil, not_false_eq_true] at hq <;>
-    simp only [ROp.flat] at hflat <;> simp only [specStep]
-  case ins k v => exact col_setTop sp k q _ (Ne.symm hq) hne
-  case rem k => split <;> first | rfl | exact col_updFirst sp k q _ (Ne.symm hq)
-  case take k => split <;> first | rfl | exact col_updFirst sp k q _ (Ne.symm hq)
-  case set k v => split <;> first | rfl | exact col_updFirst sp k q _ (Ne.symm hq)
-  case getMut k v => split <;> first | rfl | exact col_updFirst sp k q _ (Ne.symm hq)
-  case entOrIns k v => exact col_orInsert sp k q v (Ne.symm hq) hne
-  case entOrWith k v => exact col_orInsert sp k q v (Ne.symm hq) hne
-  case entOrDef k => exact col_orInsert sp k q 0 (Ne.symm hq) hne
-  case entMod k d => exact hmod k d (Ne.symm hq)
-  case entModV k d => exact hmod k d (Ne.symm hq)
-  case entModOrIns k d v =>
-    rw [col_orInsert _ k q v (Ne.symm hq) (hmodne k d)]; exact hmod k d (Ne.symm hq)
-  case occGetMut k v => split <;> first | rfl | exact col_updFirst sp k q _ (Ne.symm hq)
-  case occIntoMut k v => split <;> first | rfl | exact col_updFirst sp k q _ (Ne.symm hq)
-  case occIns k v => split <;> first | rfl | exact col_updFirst sp k q _ (Ne.symm hq)
-  case occRem k => split <;> first | rfl | exact col_updFirst sp k q _ (Ne.symm hq)
-  case vacIns k v => split <;> first | rfl | exact col_setTop sp k q _ (Ne.symm hq) hne
-  case parGet d k => split <;> rfl
-  case parIns d k v =>
-    split
-    · rename_i hd
-      have hdn : sp.drop d ≠ [] := by
-        intro h'; have := congrArg List.length h'; simp at this; omega
-      have := col_setTop (sp.drop d) k q (some v) (Ne.symm hq) hdn
-      simp only [col, List.map_append, List.map_take, List.map_drop] at this ⊢
-      rw [this, List.take_append_drop]
-    · rfl
-  case multi ks d =>
-    split
-    · split
-      · exact col_addAll ks sp q d hq
-      · rfl
-    · rfl
-  case push => cases hflat
-  case pop => cases hflat
-  all_goals rfl
-
-/-- The bindings of type `q` in the model registry, scope by scope. -/
-def vcol (r : Reg) (q : Key) : List (Option Nat) := col (abs r) q
-
-theorem abs_ne_nil (r : Reg) (h : r ≠ []) : abs r ≠ [] := by
-  cases r with
-  | nil => exact absurd rfl h
-  | cons s p => simp [abs_cons]
-
-theorem step_frame (r : Reg) (o : ROp) (q : Key) (hI : Inv r) (hq : q ∉ ROp.keys o) (hflat : ROp.flat o = true) :
-    vcol (step r o).1 q = vcol r q := by
-  simp only [vcol, (Registry.step_refines r o hI).2.2]
-  exact specStep_frame (abs r) o q hq hflat (abs_ne_nil r hI.1)
-
-theorem vcol_put_at (r : Reg) (i : Nat) (k q : Key) (c : Cell) (h : k ≠ q) :
-    vcol (modifyAt r i (·.put k c)) q = vcol r q := by
-  simp only [vcol]
-  rw [show abs (modifyAt r i (·.put k c)) = modifyAt (abs r) i (fun m : PMap => m.set k (some c.val)) from
-    map_modifyAt r i _ _ Scope.view [] (Scope.view_put _ k c)]
-  exact col_modifyAt_set _ i k q _ h
-
-theorem vcol_erase_at (r : Reg) (i : Nat) (k q : Key) (h : k ≠ q) :
-    vcol (modifyAt r i (·.erase k)) q = vcol r q := by
-  simp only [vcol]
-  rw [show abs (modifyAt r i (·.erase k)) = modifyAt (abs r) i (fun m : PMap => m.set k none) from
-    map_modifyAt r i _ _ Scope.view [] (Scope.view_erase _ k)]
-  exact col_modifyAt_set _ i k q _ h
-
-theorem vcol_length (r : Reg) (q : Key) : (vcol r q).length = r.length := by simp [vcol, col]
-
-theorem vcol_cons (s : Scope) (p : Reg) (q : Key) : vcol (s :: p) q = s.view q :: vcol p q := rfl
 
 mutual
   theorem execStmt_frame (s : Stmt) (r : Reg) (q : Key) (hI : Inv r) (hn : nodupKeys r) (ha : Stmt.avoids q s) :
